@@ -15,6 +15,9 @@ func GenPause(seed int64, idx int, tier string) *Plan {
 	p := &Plan{Family: "pause", Seed: seed*7000003 + int64(idx), Targets: map[string]TargetScript{}, QuantumMs: 100, SettleMs: 9000}
 	p.Urgent = rng.Intn(4) > 0
 	pickSched(rng, p)
+	if idx%8 == 7 {
+		return sickTargetTemplate(rng, p, "pause")
+	}
 	tn := 0
 	newGroup := func(n int) []string {
 		var g []string
@@ -113,6 +116,7 @@ func GenPause(seed int64, idx int, tier string) *Plan {
 			case x < 8:
 				r.Kind = "slow"
 				r.HoldMs = offGrid(rng, 20, drain+600)
+				r.Chunked = r.HoldMs%3 == 0
 			case x < 10:
 				r.Kind = "plain"
 				r.HC = true
